@@ -16,6 +16,8 @@ R14.11 the discriminator metadata is read from the type as it was handed in (par
 R14.12 a variant rejects what it does not describe: `required` is merged from every allOf component and a required field has no default,
        so that first-match decoding cannot capture a later variant's payload                                  [= R2.3 / R2.4]
 R14.4  discriminated aliases keep their metadata for every Union spelling the type service can produce
+R14.13 the dataclass hook factories resolve field types with include_extras=True: a discriminated union field keeps its metadata next to a quoted self reference  [= R16.13]
+R14.14 a discriminator without explicit mapping is dispatched through a mapping built from the union's members (implicit mapping)
 """
 from __future__ import annotations
 
@@ -268,6 +270,10 @@ def run(repo: Repo, rep: Report, tier: str) -> None:
     rule_declared_order(repo, rep, "R14.9")
     rule_mapping_parsed_whole(repo, rep, "R14.10")
     rule_metadata_from_the_given_type(repo, rep, "R14.11")
+    rule_implicit_mapping(repo, rep, "R14.14")
+    from rules import _converter as _cv1413
+
+    _cv1413.rule_field_types_resolved(repo, rep, "R14.13")
 
     # R14.12: sequential first-match decoding is only as exact as the variants' required fields (rules of C02)
     from rules._reuse import reuse as _reuse1412
@@ -723,3 +729,40 @@ def rule_metadata_from_the_given_type(repo: Repo, rep, rule: str = "R14.11") -> 
                       "(`Optional[Annotated[Union[A, B], Disc()]]`) the discriminator is dropped and the value is decoded by first-success", fn.loc(hit))
     elif n_loops:
         rep.ok(rule, sub2, f"{n_loops} loop(s) over the members: none replaces a member by its own type arguments", fn.loc())
+
+
+# ------------------------------------------------------------------------------------------------ R14.14 a discriminator without mapping is still a discriminator
+def rule_implicit_mapping(repo: Repo, rep, rule: str = "R14.14") -> None:
+    """`discriminator: {propertyName: petType}` without `mapping` is the common spelling; OpenAPI defines its mapping implicitly (the value is
+    the variant's schema name).  The generated `get_mapping()` returns None in that case.  If `_structure_union` only dispatches `if mapping`,
+    the discriminator is ignored: the payload is decoded as the first variant that accepts it, and an unknown value is guessed.  On the way
+    from `get_mapping()` to the dispatch there must be a replacement for an empty mapping that is built from the union's members."""
+    conv = repo.module("core.cattrs_converter")
+    su = conv.functions.get("_structure_union")
+    if su is None:
+        raise AnalysisError(f"{rule}: anchor vanished: _structure_union")
+    from sa.flatten import flatten
+
+    fn = su
+    gm = [st for st in own_nodes(fn.node) if isinstance(st, ast.Assign) and any(isinstance(c, ast.Call) and isinstance(c.func, ast.Attribute) and c.func.attr == "get_mapping" for c in ast.walk(st.value))]
+    if not gm:
+        fn = flatten(su)
+        gm = [st for st in own_nodes(fn.node) if isinstance(st, ast.Assign) and any(isinstance(c, ast.Call) and isinstance(c.func, ast.Attribute) and c.func.attr == "get_mapping" for c in ast.walk(st.value))]
+    if not gm or not isinstance(gm[0].targets[0], ast.Name):
+        raise AnalysisError(f"{rule}: `<mapping> = <metadata>.get_mapping()` was not found in _structure_union (anchor)")
+    mv = gm[0].targets[0].id
+    sub = f"{conv.relpath}:_structure_union discriminator without explicit mapping"
+    # a second definition of the mapping variable (or an `or` default on the first) that is derived from the members of the union
+    L = Locals(fn.node)
+    alts = [v for _, v, st in L.defs.get(mv, []) if v is not None and st is not gm[0]]
+    inline_default = isinstance(gm[0].value, ast.BoolOp) and isinstance(gm[0].value.op, ast.Or)
+    from_members = any(any(isinstance(x, ast.Attribute) and x.attr in ("__name__", "__qualname__") for x in ast.walk(v)) or any(
+        isinstance(c, ast.Call) and (dotted(c.func) or "").endswith("get_args") for c in ast.walk(v)) or any(isinstance(x, ast.Name) and x.id == "args" for x in ast.walk(v))
+        for v in alts + ([gm[0].value] if inline_default else []))
+    if from_members:
+        rep.ok(rule, sub, "an empty mapping is replaced by one built from the union's member classes (implicit mapping by schema name)", fn.loc(gm[0]))
+    else:
+        rep.violation(rule, sub, f"{su.fq}|discriminator-without-mapping-ignored",
+                      f"`{mv}` is only what `get_mapping()` returns, and that is None when the document gives no `mapping`: the dispatch `if {mv} ...` never runs, "
+                      "`{petType: Dog}` is decoded as the first variant that accepts it (keys of the real variant are dropped) and an unknown value is guessed instead of rejected",
+                      fn.loc(gm[0]))
